@@ -1037,6 +1037,8 @@ class Client():
             else:
                 secured = False # non tls socket connection
                 defaultPort = 80
+            if not hostname:  # such as http://:99/x
+                raise ValueError("Invalid redirect location '{0}'".format(location))
             hostname, port = httping.normalizeHostPort(hostname, port=port, defaultPort=defaultPort)
             path = splits.path
             query = splits.query
@@ -1159,7 +1161,8 @@ class Client():
                         try:
                             self.redirect()
                             redirecting = True
-                        except ValueError as ex:  # invalid or refused location
+                        except (ValueError, OSError) as ex:  # invalid, refused or
+                            # unresolvable location
                             self.redirects.pop()
                             response['errored'] = True
                             response['error'] = str(ex)
